@@ -11,15 +11,76 @@ import (
 // C12: a non-stale view query equals the (uninterpreted) map function applied to
 // the collection's current documents, however the index was updated before.
 func viewMatches(env *verifEnv, res sgbucket.ViewResult, what string) {
+	viewMatchesOpts(env, res, what, viewOpts{})
+}
+
+// viewOpts: the query options the oracle understands (each field zero = not requested).
+type viewOpts struct {
+	descending   bool
+	limit        int
+	startKey     any // Go value; compared by its canonical JSON text
+	endKey       any
+	exclusiveEnd bool
+	slots        int // document slots of the world (0 = symbolic slots + one spare)
+	coll         int64 // collection queried (0 = the first)
+}
+
+// rowLess: (emitted key, document id) order of the result, as the property states it.
+func rowLess(ak []byte, aid string, bk []byte, bid string) bool {
+	return verifOr(verifCollLess(ak, bk), verifAnd(verifBytesEq(ak, bk), verifCollLess([]byte(aid), []byte(bid))))
+}
+
+func viewMatchesOpts(env *verifEnv, res sgbucket.ViewResult, what string, o viewOpts) {
 	db := env.db
 	var want []bool
 	var docs []verifDoc
-	for i := 0; i < verifDocSlots(db)+1; i++ {
+	slots := o.slots
+	if slots == 0 {
+		slots = verifDocSlots(db) + 1
+	}
+	for i := 0; i < slots; i++ {
 		d := verifDocSlotAny(db, i)
 		docs = append(docs, d)
-		want = append(want, verifAnd(d.Present, d.Coll == 1, verifOr(d.Value != nil, d.Xattrs != nil), verifMapEmits(d)))
+		coll := o.coll
+		if coll == 0 {
+			coll = 1
+		}
+		w := verifAnd(d.Present, d.Coll == coll, verifOr(d.Value != nil, d.Xattrs != nil), verifMapEmits(d))
+		// the requested key range (after the descending swap: startkey is the upper end)
+		lo, hi := o.startKey, o.endKey
+		loIncl, hiIncl := true, !o.exclusiveEnd
+		if o.descending {
+			lo, hi = o.endKey, o.startKey
+			loIncl, hiIncl = !o.exclusiveEnd, true
+		}
+		if lo != nil {
+			w = verifAnd(w, verifOr(verifCollLess(verifAnyJSON(lo), verifMapKey(d)), verifAnd(loIncl, verifBytesEq(verifAnyJSON(lo), verifMapKey(d)))))
+		}
+		if hi != nil {
+			w = verifAnd(w, verifOr(verifCollLess(verifMapKey(d), verifAnyJSON(hi)), verifAnd(hiIncl, verifBytesEq(verifAnyJSON(hi), verifMapKey(d)))))
+		}
+		want = append(want, w)
 	}
-	verifAssert(len(res.Rows) == verifCount(want...), what+": one row per emitting current document (none from superseded, deleted-without-xattrs, other-collection documents)")
+	n := verifCount(want...)
+	if o.limit > 0 {
+		verifAssert(verifOr(verifAnd(n <= o.limit, len(res.Rows) == n), verifAnd(n > o.limit, len(res.Rows) == o.limit)), what+": limit keeps min(limit, matching) rows")
+		// the rows kept are the first ones: no matching document that is left out sorts before a returned row
+		for _, r := range res.Rows {
+			for i, d := range docs {
+				in := false
+				for _, r2 := range res.Rows {
+					in = verifOr(in, r2.ID == d.Key)
+				}
+				before := rowLess(verifMapKey(d), d.Key, verifAnyJSON(r.Key), r.ID)
+				if o.descending {
+					before = rowLess(verifAnyJSON(r.Key), r.ID, verifMapKey(d), d.Key)
+				}
+				verifAssert(!verifAnd(want[i], !in, before), what+": limit keeps the first rows of the ordered result")
+			}
+		}
+	} else {
+		verifAssert(len(res.Rows) == n, what+": one row per emitting current document (none from superseded, deleted-without-xattrs, other-collection documents)")
+	}
 	for _, r := range res.Rows {
 		m := false
 		for i, d := range docs {
@@ -29,13 +90,23 @@ func viewMatches(env *verifEnv, res sgbucket.ViewResult, what string) {
 	}
 	for i := 0; i+1 < len(res.Rows); i++ {
 		a, b := res.Rows[i], res.Rows[i+1]
+		if o.descending {
+			a, b = b, a
+		}
 		verifAssert(!verifCollLess(verifAnyJSON(b.Key), verifAnyJSON(a.Key)), what+": rows are ordered by collation of the emitted key")
 		verifAssert(a.ID != b.ID, what+": no document appears twice")
+		verifAssert(rowLess(verifAnyJSON(a.Key), a.ID, verifAnyJSON(b.Key), b.ID), what+": rows with equal keys are ordered by document id")
 	}
 }
 
+const (
+	verifMapA = "function(doc,meta){emit(meta.id,null)}"
+	verifMapB = "function(doc,meta){emit(doc.k,meta.id)}"
+)
+
 func stepView(op int) {
 	verifSymOnly()
+	verifMapSource(verifMapA)
 	nDocs := 1
 	if verifThorough() {
 		nDocs = 2
@@ -44,7 +115,7 @@ func stepView(op int) {
 	verifCutEvents()
 	c := env.colls[0]
 	ctx := context.Background()
-	err := c.PutDDoc(ctx, "dd", &sgbucket.DesignDoc{Views: sgbucket.ViewMap{"v": sgbucket.ViewDef{Map: "function(doc,meta){emit(meta.id,null)}"}}})
+	err := c.PutDDoc(ctx, "dd", &sgbucket.DesignDoc{Views: sgbucket.ViewMap{"v": sgbucket.ViewDef{Map: verifMapA}}})
 	verifAssert(err == nil, "PutDDoc succeeds")
 	res, err := c.View(ctx, "dd", "v", nil)
 	verifAssert(err == nil, "first view query succeeds")
@@ -97,3 +168,168 @@ func Harness_C12_viewPurge()    { stepView(4) }
 func Harness_C12_viewOtherColl() { stepView(5) }
 
 func Harness_C12_viewSetWithMeta() { stepView(6) }
+
+// C12, query options: descending, limit, startkey/endkey (+inclusive_end) are applied to the
+// ordered result of the map over the current documents.
+func stepViewOpts(kind int) {
+	verifSymOnly()
+	verifMapSource(verifMapA)
+	nDocs := 2
+	if verifThorough() {
+		nDocs = 3
+	}
+	env := verifWorldN(true, 2, nDocs, 0) // read-only harness: no spare slot needed
+	verifCutEvents()
+	c := env.colls[0]
+	ctx := context.Background()
+	err := c.PutDDoc(ctx, "dd", &sgbucket.DesignDoc{Views: sgbucket.ViewMap{"v": sgbucket.ViewDef{Map: verifMapA}}})
+	verifAssert(err == nil, "PutDDoc succeeds")
+	params := map[string]any{}
+	o := viewOpts{slots: nDocs}
+	// the options act on the index rows only: which documents are indexed is stepView's
+	// subject, so here every present document is a live one of this collection without xattrs
+	for i := 0; i < nDocs; i++ {
+		d := verifDocSlotAny(env.db, i)
+		verifAssume(verifImplies(d.Present, verifAnd(d.Coll == 1, d.Value != nil, d.Xattrs == nil)))
+	}
+	switch kind {
+	case 0:
+		o.descending = true
+		params["descending"] = true
+	case 1:
+		o.limit = 1
+		params["limit"] = 1
+		if verifBool("desc") {
+			o.descending = true
+			params["descending"] = true
+		}
+	case 2:
+		o.startKey = verifStr("startkey")
+		params["startkey"] = o.startKey
+		if verifBool("desc") {
+			o.descending = true
+			params["descending"] = true
+		}
+	case 3:
+		o.endKey = verifStr("endkey")
+		params["endkey"] = o.endKey
+		if verifBool("excl") {
+			o.exclusiveEnd = true
+			params["inclusive_end"] = false
+		}
+		if verifBool("desc") {
+			o.descending = true
+			params["descending"] = true
+		}
+	case 4:
+		k := verifStr("key")
+		o.startKey, o.endKey = k, k
+		params["key"] = k
+	}
+	res, err := c.View(ctx, "dd", "v", params)
+	verifAssert(err == nil, "view query succeeds")
+	if err != nil {
+		return
+	}
+	verifReach("queried")
+	viewMatchesOpts(env, res, "query options", o)
+}
+
+func Harness_C12_optDescending() { stepViewOpts(0) }
+func Harness_C12_optLimit()      { stepViewOpts(1) }
+func Harness_C12_optStartKey()   { stepViewOpts(2) }
+func Harness_C12_optEndKey()     { stepViewOpts(3) }
+func Harness_C12_optKey()        { stepViewOpts(4) }
+
+// C12, design documents: replacing or deleting a design document discards its index, a view
+// always runs the function currently stored for (collection, design doc, view name).
+func stepDDoc(kind int) {
+	verifSymOnly()
+	env := verifWorld(true, 2, 1)
+	verifCutEvents()
+	c := env.colls[0]
+	ctx := context.Background()
+	dd := func(views sgbucket.ViewMap) *sgbucket.DesignDoc { return &sgbucket.DesignDoc{Views: views} }
+	err := c.PutDDoc(ctx, "dd", dd(sgbucket.ViewMap{"v": sgbucket.ViewDef{Map: verifMapA}}))
+	verifAssert(err == nil, "PutDDoc succeeds")
+	verifMapSource(verifMapA)
+	res, err := c.View(ctx, "dd", "v", nil)
+	verifAssert(err == nil, "first view query succeeds")
+	if err != nil {
+		return
+	}
+	viewMatches(env, res, "first function")
+	switch kind {
+	case 0: // replace the design document with another function under the same view name
+		err = c.PutDDoc(ctx, "dd", dd(sgbucket.ViewMap{"v": sgbucket.ViewDef{Map: verifMapB}}))
+		verifAssert(err == nil, "replacing PutDDoc succeeds")
+		verifMapSource(verifMapB)
+		res, err = c.View(ctx, "dd", "v", nil)
+		verifAssert(err == nil, "query after replacement succeeds")
+		if err == nil {
+			verifReach("final-query")
+			viewMatches(env, res, "replaced function")
+		}
+	case 1: // delete, query (missing), re-create with another function
+		err = c.DeleteDDoc("dd")
+		verifAssert(err == nil, "DeleteDDoc succeeds")
+		_, err = c.View(ctx, "dd", "v", nil)
+		verifAssert(err != nil, "a deleted design document's view is gone")
+		verifAssert(c.DeleteDDoc("dd") != nil, "deleting a missing design document is an error")
+		err = c.PutDDoc(ctx, "dd", dd(sgbucket.ViewMap{"v": sgbucket.ViewDef{Map: verifMapB}}))
+		verifAssert(err == nil, "re-creating PutDDoc succeeds")
+		verifMapSource(verifMapB)
+		res, err = c.View(ctx, "dd", "v", nil)
+		verifAssert(err == nil, "query after re-creation succeeds")
+		if err == nil {
+			verifReach("final-query")
+			viewMatches(env, res, "re-created function")
+		}
+	case 2: // the same design document / view name in the other collection, another function
+		c2 := env.colls[1]
+		err = c2.PutDDoc(ctx, "dd", dd(sgbucket.ViewMap{"v": sgbucket.ViewDef{Map: verifMapB}}))
+		verifAssert(err == nil, "PutDDoc in the other collection succeeds")
+		res, err = c.View(ctx, "dd", "v", nil)
+		verifAssert(err == nil, "query of the first collection succeeds")
+		if err == nil {
+			viewMatches(env, res, "first collection keeps its function and index")
+		}
+		verifMapSource(verifMapB)
+		res, err = c2.View(ctx, "dd", "v", nil)
+		verifAssert(err == nil, "query of the other collection succeeds")
+		if err == nil {
+			verifReach("final-query")
+			viewMatchesOpts(env, res, "other collection", viewOpts{coll: 2})
+		}
+		// deleting the other collection's design document leaves this one alone
+		verifAssert(c2.DeleteDDoc("dd") == nil, "DeleteDDoc in the other collection succeeds")
+		verifMapSource(verifMapA)
+		res, err = c.View(ctx, "dd", "v", nil)
+		verifAssert(err == nil, "query after the other collection's delete succeeds")
+		if err == nil {
+			viewMatches(env, res, "first collection after the other's delete")
+		}
+	case 3: // a second view in a second design document, then a write: both indexes catch it
+		err = c.PutDDoc(ctx, "d2", dd(sgbucket.ViewMap{"w": sgbucket.ViewDef{Map: verifMapB}}))
+		verifAssert(err == nil, "second PutDDoc succeeds")
+		_ = c.SetRaw(verifKey("key"), 0, nil, verifBytesNonNil("val"))
+		verifMapSource(verifMapB)
+		res, err = c.View(ctx, "d2", "w", nil)
+		verifAssert(err == nil, "query of the second view succeeds")
+		if err == nil {
+			viewMatches(env, res, "second view")
+		}
+		verifMapSource(verifMapA)
+		res, err = c.View(ctx, "dd", "v", nil)
+		verifAssert(err == nil, "query of the first view succeeds")
+		if err == nil {
+			verifReach("final-query")
+			viewMatches(env, res, "first view after the write")
+		}
+	}
+}
+
+func Harness_C12_ddocReplace()         { stepDDoc(0) }
+func Harness_C12_ddocDeleteRecreate()  { stepDDoc(1) }
+func Harness_C12_ddocOtherCollection() { stepDDoc(2) }
+func Harness_C12_ddocTwoViews()        { stepDDoc(3) }
